@@ -83,6 +83,23 @@ func c16strings(rng *rand.Rand, L int) (out [][]byte, classes []string) {
 		}
 		add(l, "le:"+name)
 	}
+	if L >= 32 {
+		for name, m := range map[string]*big.Int{"r": r, "p": ref.P, "2r": new(big.Int).Lsh(r, 1)} {
+			ns := limbNeighbours(m, rng)
+			for k := 0; k < 6; k++ {
+				v := ns[rng.Intn(len(ns))]
+				be := v.Bytes()
+				b := make([]byte, L)
+				copy(b[L-len(be):], be)
+				add(b, "be:limb-neighbour-of-"+name)
+				l := make([]byte, L)
+				for i := range be {
+					l[i] = be[len(be)-1-i]
+				}
+				add(l, "le:limb-neighbour-of-"+name)
+			}
+		}
+	}
 	ff := bytes.Repeat([]byte{0xff}, L)
 	add(ff, "allff")
 	for k := 0; k < 6; k++ {
